@@ -329,6 +329,89 @@ def lost_copy_check(rec, bm_mod, root):
                 rec.outcome("lost-copy:" + kind)
 
 
+FILES_DOT = [("sub-01/sub-01_task_go_events.tsv", "a"), (".sourcedata/sub-01/sub-01_task_go_events.tsv", "b"),
+             (".pilot_events.tsv", "c"), ("pilot_events.tsv", "b"), ("sourcedata/sub-01/sub-01_task_go_events.tsv", "c")]
+NAMED_OPS = [("backup", "first"), ("backup", "second"), ("modify", 0), ("modify", 1), ("modify", 2), ("restore", "first"),
+             ("restore", "second")]
+
+
+def named_backups_check(rec, bm_mod, root, depth):
+    """E2: backups under two names, data edits and restores in every order (to depth) - through one manager object and
+    through a new manager per step - on a tree whose paths include leading dots and names that differ only by that dot.
+    A restore returns exactly the files as they were when that backup was made; a backup keeps its bytes whatever is done
+    later; an existing name is refused."""
+    def tree():
+        return {k: v.decode() for k, v in fsseam.tree_bytes(root).items() if not k.startswith("derivatives")}
+    for one_manager in (True, False):
+        for hist in (h for d in range(2, depth + 1) for h in itertools.product(NAMED_OPS, repeat=d)):
+            if hist[0][0] != "backup" or not any(o[0] == "restore" for o in hist) or \
+                    sum(1 for o in hist if o[0] == "backup") > 2:
+                continue
+            make_tree(root, FILES_DOT)
+            files = [os.path.join(root, rel) for rel, _ in FILES_DOT]
+            model = tree()
+            snaps = {}
+            mgr = bm_mod.BackupManager(root)
+            rec.n("evaluations")
+            rec.n("distinct_nontrivial")
+            rec.state(("named", one_manager, tuple(sorted(set(hist)))))
+            for step, op in enumerate(hist):
+                where = {"one_manager_object": one_manager, "history": [list(o) for o in hist[:step + 1]]}
+                if not one_manager:
+                    mgr = bm_mod.BackupManager(root)
+                rec.n("transitions")
+                try:
+                    if op[0] == "modify":
+                        rel = FILES_DOT[op[1]][0]
+                        model[rel] = model[rel] + "9.0\t9.0\t9\n"
+                        with open(os.path.join(root, rel), "w") as f:
+                            f.write(model[rel])
+                    elif op[0] == "backup":
+                        try:
+                            made = mgr.create_backup(files, backup_name=op[1])
+                        except Exception as e:
+                            if type(e).__name__ != "HedFileError":
+                                raise
+                            made = False
+                        if bool(made) != (op[1] not in snaps):
+                            rec.violation("C18:named:backup-request-answered-wrongly", name=op[1], made=bool(made),
+                                          existing=sorted(snaps), **where)
+                            break
+                        snaps.setdefault(op[1], dict(model))
+                    else:
+                        if op[1] not in snaps:
+                            try:
+                                mgr.restore_backup(op[1])
+                                rec.violation("C18:named:restore-of-a-missing-backup-did-not-fail", name=op[1], **where)
+                                break
+                            except Exception:
+                                continue
+                        mgr.restore_backup(op[1])
+                        model = dict(snaps[op[1]])
+                except BaseException as e:
+                    rec.violation(f"C18:named:{op[0]}-raises:{type(e).__name__}", error=repr(e)[:300], **where)
+                    break
+                if tree() != model:
+                    actual = tree()
+                    diff = sorted(k for k in set(actual) | set(model) if actual.get(k) != model.get(k))
+                    rec.violation(f"C18:named:{op[0]}:data-files-differ-from-model", differing=diff,
+                                  actual={k: actual.get(k) for k in diff}, expected={k: model.get(k) for k in diff}, **where)
+                    break
+                kind, state = backup_state(bm_mod, root)
+                bad = None
+                if kind != "ok" or set(state) != set(snaps):
+                    bad = f"listed {sorted(state) if kind == 'ok' else kind}, made {sorted(snaps)}"
+                else:
+                    for name, snap in snaps.items():
+                        got = sorted(v.decode() if v is not None else None for v in state[name].values())
+                        if got != sorted(snap.values()):
+                            bad = f"backup {name!r} does not hold the files as they were when it was made"
+                if bad:
+                    rec.violation(f"C18:named:{op[0]}:backups-differ-from-model", detail=bad, **where)
+                    break
+            rec.outcome("named-history")
+
+
 def worker_hist(rec, shard, nshards, scratch, depth, seed):
     import contextlib
     import io
@@ -347,6 +430,9 @@ def worker_hist(rec, shard, nshards, scratch, depth, seed):
     if shard == 0:
         with contextlib.redirect_stdout(io.StringIO()):
             lost_copy_check(rec, bm_mod, os.path.join(scratch, "lost"))
+    if shard == 1 % nshards:
+        with contextlib.redirect_stdout(io.StringIO()):
+            named_backups_check(rec, bm_mod, os.path.join(scratch, "named"), 4 if depth > 3 else 3)
     # the task filter looks at file names only: a data root whose own name mentions a task must behave the same
     root_task = os.path.join(scratch, f"h{shard}_task_stop_pilot")
     for ci in core.shard_order(len(cases), shard, nshards, seed):
